@@ -105,6 +105,20 @@ def judge(T, ins, log, total):
         lo = t - T["us200"] - 8
         return any(a < t and b > lo for a, b in hs_iv)
 
+    def left_hs_after_3ms_se0(t):
+        """cycle in which high-speed operation last ended before t, if SE0 had persisted 3 ms by then (the
+        reset/suspend discrimination path); None if high speed was left for another reason (restriction, VBUS)"""
+        ends = [y for x, y in hs_iv if y <= t]
+        if not ends:
+            return None
+        x = max(ends)
+        for u in (x - 1, x - 2, x - 3):
+            if u >= 0:
+                rs, re_, rv = line.run_at(u)
+                if rv == SE0 and u - rs + 1 >= T["ms3"] - 2:
+                    return x
+        return None
+
     def long_se0_before(t):
         """3 ms of continuous SE0 ending about 200 us before t (when the device left high-speed signalling)"""
         for du in range(0, 6):
@@ -125,15 +139,23 @@ def judge(T, ins, log, total):
                 continue
             for t in range(s, min(e, s + 2000)):
                 checked += 1
-                rs0, _, rv0 = line.run_at(t)
-                hs_exit = max([y for x, y in hs_iv if x < t], default=-10)
-                fresh_se0 = rv0 == SE0 and rs0 > hs_exit - 2      # SE0 began after high speed had been left
-                if hs_context(t) and not fresh_se0:
+                if hs_context(t) and left_hs_after_3ms_se0(t) is not None and \
+                        abs(t - (left_hs_after_3ms_se0(t) + T["us200"])) <= 4:
+                    # the device dropped high-speed signalling after 3 ms of SE0 and is now, 200 us later,
+                    # telling a reset from a suspend
                     if not long_se0_before(t) or line.at(t) == J:
                         return (f"bus_reset in cycle {t} at high speed without 3 ms of SE0 followed by 200 us and a "
                                 f"non-idle line (line state now {line.at(t)})", "reset-at-hs-without-3ms-se0"), labels
                     labels.add("reset-from-hs")
                     continue
+                x3 = left_hs_after_3ms_se0(t) if hs_context(t) else None
+                if x3 is not None and t < x3 + T["us200"] - 4:
+                    uu = t if line.at(t) == SE0 else t - 1
+                    rs, re_, rv = line.run_at(uu)
+                    if rv == SE0 and rs < x3:
+                        return (f"bus_reset in cycle {t}, only {t - x3} cycles after high-speed signalling was dropped "
+                                f"in cycle {x3} (3 ms of SE0 must be followed by 200 us = {T['us200']} cycles)",
+                                "reset-at-hs-before-200us"), labels
                 # SE0 must have persisted for `need` cycles up to this cycle (or up to the previous one, when the
                 # line leaves SE0 in the very cycle the reset is reported)
                 u = t if line.at(t) == SE0 else t - 1
@@ -150,7 +172,7 @@ def judge(T, ins, log, total):
     for a, b in susp_iv:
         if a == 0:
             return ("suspended at cycle 0", "suspend-without-3ms-idle"), labels
-        if hs_context(a):
+        if hs_context(a) and left_hs_after_3ms_se0(a) is not None:
             if not long_se0_before(a):
                 return (f"suspend entered in cycle {a} from high speed without 3 ms of SE0 (HS idle)",
                         "suspend-without-3ms-idle-hs"), labels
